@@ -24,6 +24,7 @@ structure PCtx where
   dep : Nat                         -- nesting depth of this instance
   abase : Nat → Nat := fun _ => 0   -- word address of the global array with the given id
   asize : Nat → Nat := fun _ => 0   -- its length (0: no such array)
+  strs : List (String × List Byte) := []   -- the string literals of the program, with their labels
 
 def PCtx.S (K : PCtx) : Nat := (frameOf K.out K.ctx.frame).size
 /-- Address of the frame slot with (non-negative) frame offset `k`. -/
@@ -217,11 +218,28 @@ theorem store_ofNat (env : Env) (mem : Mem) (n : Nat) (v : Word) (h : n < memWor
     simp only [BitVec.toNat_ofNat]; unfold memWords at h; omega
   rw [this, if_pos ⟨h, hc⟩]
 
+/-- The pool of the whole program. -/
+def PCtx.items (K : PCtx) : List PoolItem :=
+  (K.consts.map fun e => PoolItem.const e.1 e.2) ++ (K.strs.map fun e => PoolItem.str e.1 e.2)
+
+/-- Everything generated so far is in the program's pool. -/
+def ConstsIn (K : PCtx) (gs : GS) : Prop := ∀ x ∈ gs.items, x ∈ K.items
+
+theorem ConstsIn.const {K : PCtx} {gs : GS} (h : ConstsIn K gs) {v : Int} {l : String} (hm : (v, l) ∈ gs.constMap) :
+    (v, l) ∈ K.consts := by
+  have := h _ ((const_mem_items gs v l).mpr hm)
+  simpa [PCtx.items] using this
+
+theorem ConstsIn.str {K : PCtx} {gs : GS} (h : ConstsIn K gs) {l : String} {bs : List Byte} (hm : (l, bs) ∈ gs.strs) :
+    (l, bs) ∈ K.strs := by
+  have := h _ ((str_mem_items gs l bs).mpr hm)
+  simpa [PCtx.items] using this
+
 /-- `genConst`'s code loads the constant. -/
 theorem exec_genConst (K : PCtx) (wf : K.WF) (reg : Reg) (c : CInt) (gs gs' : GS) (code : Code) (σ : X.St)
     (i : Nat) (a b : Word) (mem : Mem) (io : Isa.IOSt)
     (hg : genConst reg c gs = .ok (code, gs')) (hat : At K.env.ds i (K.low code)) (hr : Rep K σ mem)
-    (hc : ∀ e ∈ gs'.constMap, e ∈ K.consts) :
+    (hc : ConstsIn K gs') :
     Steps K.env (cfg i a b mem) io
       (cfg (i + (K.low code).length) (match reg with | .A => c | .B => a) (match reg with | .A => b | .B => c) mem) io := by
   obtain ⟨_, _, _, h⟩ := genConst_inv reg c gs gs' code hg
@@ -239,9 +257,9 @@ theorem exec_genConst (K : PCtx) (wf : K.WF) (reg : Reg) (c : CInt) (gs gs' : GS
       have := Step.ldbc (env := K.env) (cfg i a b mem) io c.toInt hat.head
       simpa [W_toInt] using this
   · subst hcode
-    obtain ⟨j, k, hd, hal, hlt⟩ := wf.const_lbl _ _ (hc _ hmem)
+    obtain ⟨j, k, hd, hal, hlt⟩ := wf.const_lbl _ _ (hc.const hmem)
     have hli := labelIdx_of_nodup _ _ _ _ wf.nodup hd
-    have hval := hr.consts _ _ j k (hc _ hmem) hd
+    have hval := hr.consts _ _ j k (hc.const hmem) hd
     rw [W_toInt] at hval
     have hld : Isa.ld mem (BitVec.ofNat 32 (K.env.addr j / 4)) = some c := by
       rw [ld_ofNat _ _ (by have := wf.sp_le; omega), hval]
@@ -364,7 +382,6 @@ theorem exec_select_brn (K : PCtx) (wf : K.WF) (t e : String) (i : Nat) (x b : W
 
 /-! ### The Hoare triples of expression code -/
 
-def ConstsIn (K : PCtx) (gs : GS) : Prop := ∀ e ∈ gs.constMap, e ∈ K.consts
 
 /-- Upper end of the slots an expression may write: its own temporaries (`t = true`, call-free
     code), or the whole frame (code with calls, which also writes outgoing parameters). -/
